@@ -9,7 +9,7 @@ def run(ctx):
     import random, depsgen, c10
     rng = random.Random(ctx["seed"] * 43 + 1)
     killed = [c10.with_crashes(rng, depsgen.gen_case(rng, features=FEATURES["C01"])) for _ in range(200 if ctx["tier"] == "thorough" else 20)]
-    cov = deps_check.run_property(ctx, "C01", FEATURES["C01"], NCASES["C01"], WANT["C01"], known_matcher=KNOWN.get("C01"), extra_cases=killed)
+    cov = deps_check.run_property(ctx, "C01", FEATURES["C01"], NCASES["C01"], WANT["C01"], known_matcher=c10.kill_window_matcher("C01"), extra_cases=killed)
     cov["histories_with_killed_builds"] = len(killed)
     if not ctx.get("replay"):
         ccov, cviol = core_check.run(ctx, "C01", 40)
